@@ -165,6 +165,12 @@ pub fn dest_grid(thorough: bool) -> Vec<Dest> {
             out.insert(Dest::Ip(SocketAddr::new(ip.parse().unwrap(), p)));
         }
     }
+    // IPv6 addresses with a zone (scope id): only text protocols can carry one; every other encoder has to refuse it
+    for (ip, scope) in [("fe80::1", 5u32), ("fe80::1", 1), ("ff02::1", 2), ("::1", 7)] {
+        for &p in &ports[..2.min(ports.len())] {
+            out.insert(Dest::Ip(SocketAddr::V6(std::net::SocketAddrV6::new(ip.parse().unwrap(), p, 0, scope))));
+        }
+    }
     // IP literals written as host names
     for h in ["1.2.3.4", "::1", "[::1]", "01.2.3.4", "1.2.3.4.", "0x7f.1"] {
         out.insert(Dest::Host(h.as_bytes().to_vec(), 80));
@@ -187,6 +193,12 @@ const INBOUND: [Inb; 6] = [Inb::HttpConnect, Inb::Socks4, Inb::Socks4a, Inb::Soc
 
 /// wire bytes by which a client expresses `d` in protocol `inb` (None: the protocol cannot carry it)
 fn inbound_wire(inb: Inb, d: &Dest) -> Option<Vec<u8>> {
+    // a zone travels in text only: the binary address fields have no room for it, a client cannot ask for it there
+    if let Dest::Ip(SocketAddr::V6(a)) = d {
+        if a.scope_id() != 0 && inb != Inb::HttpConnect {
+            return None;
+        }
+    }
     match (inb, d) {
         (Inb::HttpConnect, Dest::Host(h, p)) => {
             // whitespace and line breaks are delimiters of the request line: such a host cannot be expressed
